@@ -577,6 +577,8 @@ class Bf3File:
             if comptype == BF3TYPE.MAIN:
                 comp_comment = "Main Firmware"
             elif comptype == BF3TYPE.LOADER:
+                if BF3TAG.INTF not in comp.description:
+                    raise Bf3FileFormatError("Loader Firmware without Interface")
                 rev_intf_map = {v: k for k, v in BF3INTF.__dict__.items()}
                 intf = int.from_bytes(comp.description[BF3TAG.INTF], "big")
                 comp_comment = rev_intf_map[intf] + " Loader Firmware"
